@@ -81,6 +81,15 @@ def eval_ctor(case):
         ref = mk_source(case['src'])
         if per_char(srcs) != per_char(ref) or srcs.base_str != ref.base_str:
             o.fail('ctor-source-modified', where)
+    # the AnsiStr must not stay connected to a mutable source
+    if isinstance(srcs, AnsiString):
+        snap_before = (s.base_str, per_char(s), renders(s), str.__str__(s))
+        srcs.apply_formatting('italic')
+        srcs.upper(inplace=True)
+        srcs += 'Q'
+        if (s.base_str, per_char(s), renders(s), str.__str__(s)) != snap_before:
+            o.fail('ctor-result-follows-source', '%s: after mutating the AnsiString source the AnsiStr is %s' % (where, describe(s)))
+        payload_ok(o, s, where + ' after source mutation')
     # conversions round
     back = AnsiString(s)
     if back.base_str != S.base_str or per_char(back) != per_char(S) or not (back == S):
